@@ -226,6 +226,10 @@ class Endpoint(Node):
         else:
             req = self.request_cls()
 
+        # 'authenticated' is set below, by the provider only: never taken from the request
+        if "authenticated" in req:
+            del req["authenticated"]
+
         # Verify that the client is allowed to do this
         auth_info = self.client_authentication(req, http_info, endpoint=self, **kwargs)
         LOGGER.debug(f"parse_request:auth_info:{auth_info}")
